@@ -320,7 +320,10 @@ Definition astep (o : ospec) (p : list instr) (v : expr) (pc : nat) (s : astate)
   | None | Some IRet => if exit_ok o (a_phase s) then Some [] else None
   | Some (ILoad r) =>
       Some [(S pc, {| a_known := kdel k r;
-                      a_phase := match a_phase s with PGood => PGood | _ => PLoaded r (o_points o) end |})]
+                      a_phase := match a_phase s with
+                                 | PGood => PLoaded r (filter (o_skipok o) (o_points o))   (* the location already dominates v: so does what is loaded now *)
+                                 | _ => PLoaded r (o_points o)
+                                 end |})]
   | Some (IStore _) | Some (IAdd _) => None
   | Some (ISet r e) =>
       Some [(S pc, {| a_known := match keval k e with Some z => kset k r z | None => kdel k r end;
